@@ -3,7 +3,8 @@
 import json, os, sys
 here = os.path.dirname(os.path.abspath(__file__))
 sys.path.insert(0, here)
-from units import PROPS, NOT_APPLICABLE
+from units import PROPS as ALLPROPS, NOT_APPLICABLE, CLAIMED
+PROPS = {k: v for k, v in ALLPROPS.items() if k in CLAIMED}
 
 BASELINE_OFF = ("cd /repo && go build ./... && go test -vet=off -count=1 -timeout 25m ./...")
 
